@@ -13,6 +13,7 @@ CONSTANTS
   DevLimiter = TRUE
   DevNilFwd = TRUE
   DevStaleSrc = TRUE
+  DevSleepLimiter = FALSE
   Gen = FALSE
   Emit = FALSE
 SPECIFICATION LiveSpec
